@@ -2,7 +2,6 @@ package verif
 
 import (
 	"fmt"
-	"net"
 	"strings"
 	"time"
 
